@@ -109,9 +109,14 @@ static void *pingponger(void *a) {
 	}
 	return NULL;
 }
+// progress-based: gives up only when no item at all has run for limit_ms (a loaded machine is slow, not stuck)
 static void wait_all(long expect, double limit_ms) {
-	double t0 = now_ms();
-	while (atomic_load(&total_runs) < expect && now_ms() - t0 < limit_ms) usleep(500);
+	double t0 = now_ms(); long last = atomic_load(&total_runs), cur;
+	while ((cur = atomic_load(&total_runs)) < expect) {
+		if (cur != last) { last = cur; t0 = now_ms(); }
+		if (now_ms() - t0 >= limit_ms) break;
+		usleep(500);
+	}
 }
 // ---- blocked pool
 static sem_t gate; static _Atomic int blocked_in, released;
